@@ -97,7 +97,15 @@ def rule_p1(ctx, F):
     fn = ctx.need_fn(F, "ts_subtree_compress", "P1")
     if not fn:
         return
+    # the three nodes of a rotation, by role: tree = popped from the stack, child = its first child, grandchild = child's last child
     s = {nm: [pt for pt, n in find(fn, "ts_subtree_summarize_children(%s, language)" % nm)] for nm in ("grandchild", "child", "tree")}
+    if not all(len(v) == 1 for v in s.values()):
+        calls3 = sorted((pt, arg_var(n, 0)) for pt, n in find(fn, "ts_subtree_summarize_children(_, language)"))
+        if len(calls3) == 3:
+            fn._renames = dict(getattr(fn, "_renames", {}), grandchild=calls3[0][1], child=calls3[1][1], tree=calls3[2][1])
+            fn._renames = {k: v for k, v in fn._renames.items() if k != v}
+            # roles must still be what the names claimed: child = tree's first child, grandchild = child's last child
+            s = {nm: [pt for pt, n in find(fn, "ts_subtree_summarize_children(%s, language)" % fn.cur(nm))] for nm in ("grandchild", "child", "tree")}
     if not all(len(v) == 1 for v in s.values()):
         ctx.bad("P1", "ts_subtree_compress:resummarise-three", "expected exactly one re-summarise call each for grandchild, child, tree; found %s" % {k: len(v) for k, v in s.items()})
         return
@@ -115,7 +123,7 @@ def rule_p1(ctx, F):
         ctx.bad("P1", "ts_subtree_compress:initial-size", "initial_stack_size is no longer the stack size at entry")
     # each rotation is followed by pushing `tree`
     slot = sorted({pt for pt, n, l, op in stores(fn) if heap_store(l) == "childslot"})
-    pushes = [pt for pt, n, l, op in stores(fn) if "stack" in show(l) and "contents" in show(l) and show(strip(n.get("r") or {})) == "tree"]
+    pushes = [pt for pt, n, l, op in stores(fn) if "stack" in show(l) and "contents" in show(l) and show(strip(n.get("r") or {})) == fn.cur("tree")]
     ctx.after("P1", "ts_subtree_compress:rotation-is-queued", fn, slot[:1], pushes, "every rotation queues the rotated node for re-summarising", stop_pts=[])
 
 
